@@ -261,7 +261,7 @@ func (h *HarnessRun) run(workers int, deadline time.Time) {
 					h.boundHits[res.Detail]++
 				}
 				h.fails = append(h.fails, res.Fails...)
-				if res.Vector != nil && (h.paths%h.sampleEvery == 0 || len(h.samples) < 4) && len(h.samples) < 400 {
+				if res.Vector != nil && len(h.samples) < 20000 {
 					h.samples = append(h.samples, res)
 				}
 				h.mu.Unlock()
